@@ -236,9 +236,31 @@ def run(ctx: Ctx) -> None:
         # the join loop iterates the list every started task was appended to
         appended = [x for x in q.calls(ex) if attr_tail(x) == "append" and x.args and isinstance(x.args[0], ast.Name) and isinstance(x.func.value, ast.Name)]
         task_lists = {x.func.value.id for x in appended if any(isinstance(v, ast.Call) and v is c for v in q.assigned_values(ex, x.args[0].id))}
+        # idiom B (windows): the tasks are collected first, then started and joined a slice at a time:
+        #   batch = tasks[k : k + W]; for p in batch: p.start(); for p in batch: p.join()
+        windows = {n.targets[0].id for n in walk(ex.node) if isinstance(n, ast.Assign) and isinstance(n.targets[0], ast.Name) and isinstance(n.value, ast.Subscript)
+                   and isinstance(n.value.slice, ast.Slice) and isinstance(n.value.value, ast.Name) and n.value.value.id in task_lists}
+        start_calls = [x for x in q.calls(ex) if attr_tail(x) == "start" and not x.args]
+        window_start = None
+        for sc in start_calls:
+            lp = q.enclosing_loops(ex, sc)
+            if lp and isinstance(lp[-1], ast.For) and isinstance(lp[-1].iter, ast.Name) and lp[-1].iter.id in windows:
+                window_start = lp[-1]
         join_ok = False
         for j in joins:
             lp = q.enclosing_loops(ex, j)
+            if window_start is not None:
+                # the join loop runs over the same window, right behind the start loop on every path
+                if lp and isinstance(lp[-1], ast.For) and isinstance(lp[-1].iter, ast.Name) and lp[-1].iter.id == window_start.iter.id:
+                    jn = q.node_for(ex, j)
+                    it = cfg.by_ast[lp[-1]]
+                    body = next(s_ for s_ in it.succ if s_.kind == "body")
+                    sit = cfg.by_ast[window_start]
+                    redefined = any(isinstance(n, ast.Assign) and norm(n.targets[0]) == window_start.iter.id and window_start.end_lineno < n.lineno < lp[-1].lineno for n in walk(ex.node))
+                    if not cfg.reaches(body, it, avoid=[jn], normal_only=True) and cfg.every_path_to_exit_passes(sit, [it]) and not redefined:
+                        join_ok = True
+                        join_loop = it
+                continue
             if lp and isinstance(lp[-1], ast.For) and isinstance(lp[-1].iter, ast.Name) and lp[-1].iter.id in task_lists:
                 # unconditional inside the loop
                 jn = q.node_for(ex, j)
@@ -249,7 +271,10 @@ def run(ctx: Ctx) -> None:
                     join_loop = it
         ctx.check(join_ok, "R13.3", ex, joins[0], "every started task is joined", "not every started task is joined before results are used (join is missing, conditional, or over a different list)")
         # start and append on every iteration that spawns
-        if started is not None and appended:
+        if window_start is not None:
+            ctx.check(join_ok, "R13.3", ex, c, "every started task is recorded for joining (started and joined over the same window)",
+                      "a started task may not be in the window that is joined")
+        elif started is not None and appended:
             an = q.node_for(ex, [x for x in appended if x.func.value.id in task_lists][0]) if task_lists else None
             ctx.check(an is not None and cfg.every_path_to_exit_passes(started, [an]) , "R13.3", ex, c, "every started task is recorded for joining",
                       "a started task may not be appended to the list that is joined")
@@ -261,8 +286,13 @@ def run(ctx: Ctx) -> None:
             facts = q.facts_at(ex, r)
             if any(isinstance(cd, ast.Call) and attr_tail(cd) == "empty" and isinstance(cd.func.value, ast.Name) and cd.func.value.id in chan_names and not pol
                    for cd, pol in facts) or any(isinstance(cd, ast.Call) and attr_tail(cd) == "qsize" for cd, _ in facts):
-                if join_ok and cfg.dominates(join_loop, q.node_for(ex, r)):
+                if join_ok and window_start is None and cfg.dominates(join_loop, q.node_for(ex, r)):
                     rr = True
+                if join_ok and window_start is not None:
+                    # windows: the channel is looked at after the last window - no normal path from a start to the exit avoids its test, and the raise is outside the loops
+                    tests = [t for t in cfg.nodes if t.kind == "test" and any(isinstance(x, ast.Call) and attr_tail(x) in ("empty", "qsize") for x in ast.walk(t.ast))]
+                    if tests and started is not None and cfg.every_path_to_exit_passes(started, tests) and not q.enclosing_loops(ex, r):
+                        rr = True
         ctx.check(rr, "R13.3", ex, c, "non-empty error channel re-raises after the joins", "after joining, a non-empty error channel does not lead to a re-raise in the caller",
                   construct="re-raise from error channel")
         # R13.4 channel kind -----------------------------------------------------------------
